@@ -33,7 +33,7 @@ import (
 type run [2]int // n copies of byte b
 
 type opDesc struct {
-	Op     string `json:"op"` // start resume write close commit; extended scripts: mark resume-mark fault
+	Op     string `json:"op"` // start resume write close commit; extended scripts: mark resume-mark fault forget
 	Plan   []int  `json:"plan,omitempty"` // fault: fate of the next requests (0 = goes through, else answered with this status)
 	Hint   int    `json:"hint,omitempty"`
 	Mode   string `json:"mode,omitempty"` // size info at
@@ -184,42 +184,40 @@ func build(stack string) (ociregistry.Interface, []*ocimem.Registry) {
 // buildX also returns the fault point in front of the outermost server (HTTP stacks hop1 and
 // hop2; nil elsewhere: a fault operation is then a no-op, as in the model).
 func buildX(stack string) (ociregistry.Interface, []*ocimem.Registry, *faultRT) {
-	switch stack {
-	case "hop1":
-		m := ocimem.New()
-		f := &faultRT{}
-		return server(0).clientT(m, f), []*ocimem.Registry{m}, f
-	case "hop2":
-		m := ocimem.New()
-		f := &faultRT{}
-		return server(1).clientT(server(0).client(m), f), []*ocimem.Registry{m}, f
+	// a "-rot" stack has a registry with rotating upload ids (rot.go) around each ocimem
+	base := strings.TrimSuffix(stack, "-rot")
+	back := func(m *ocimem.Registry) ociregistry.Interface { return m }
+	if base != stack {
+		back = func(m *ocimem.Registry) ociregistry.Interface { return newRotating(m) }
 	}
-	reg, mems := build0(stack)
-	return reg, mems, nil
-}
-
-func build0(stack string) (ociregistry.Interface, []*ocimem.Registry) {
-	switch stack {
+	switch base {
 	case "mem":
 		m := ocimem.New()
-		return m, []*ocimem.Registry{m}
+		return back(m), []*ocimem.Registry{m}, nil
 	case "hop1":
 		m := ocimem.New()
-		return server(0).client(m), []*ocimem.Registry{m}
+		f := &faultRT{}
+		return server(0).clientT(back(m), f), []*ocimem.Registry{m}, f
 	case "hop2":
 		m := ocimem.New()
-		return server(1).client(server(0).client(m)), []*ocimem.Registry{m}
+		f := &faultRT{}
+		return server(1).clientT(server(0).client(back(m)), f), []*ocimem.Registry{m}, f
 	case "unify-mem":
 		m0, m1 := ocimem.New(), ocimem.New()
-		return ociunify.New(m0, m1, nil), []*ocimem.Registry{m0, m1}
+		return ociunify.New(back(m0), back(m1), nil), []*ocimem.Registry{m0, m1}, nil
 	case "unify-hop1":
 		m0, m1 := ocimem.New(), ocimem.New()
-		return ociunify.New(server(0).client(m0), server(2).client(m1), nil), []*ocimem.Registry{m0, m1}
+		return ociunify.New(server(0).client(back(m0)), server(2).client(back(m1)), nil), []*ocimem.Registry{m0, m1}, nil
 	}
 	panic("unknown stack " + stack)
 }
 
-var stackCoq = map[string]string{"mem": "SMem", "hop1": "SHop1", "hop2": "SHop2", "unify-mem": "SUnifyMem", "unify-hop1": "SUnifyHop1"}
+// a "-rot" stack is compared with the model of the plain one: see rot.go
+var stackCoq = map[string]string{"mem": "SMem", "hop1": "SHop1", "hop2": "SHop2", "unify-mem": "SUnifyMem", "unify-hop1": "SUnifyHop1",
+	"mem-rot": "SMem", "hop1-rot": "SHop1", "hop2-rot": "SHop2", "unify-mem-rot": "SUnifyMem", "unify-hop1-rot": "SUnifyHop1"}
+
+// (only behind HTTP: a direct caller of a refused writer would hold the id that rot.go drops)
+var rotStacks = []string{"hop1-rot", "hop2-rot", "unify-hop1-rot"}
 
 // ---- execution ----
 
@@ -317,6 +315,8 @@ func (d opDesc) coqX() string {
 		return "XMark"
 	case "resume-mark":
 		return fmt.Sprintf("XResumeMark %s %s", mode(), hx.Z(int64(d.Hint)))
+	case "forget":
+		return "XForget"
 	case "fault":
 		ps := make([]string, len(d.Plan))
 		for i, p := range d.Plan {
@@ -410,7 +410,7 @@ func runScript(out *hx.Out, sc script, origin string) {
 				mark, marked = cur.ID(), true
 				o = obsDesc{Res: "ok"}
 			case "resume-mark":
-				if cur == nil || !marked {
+				if !marked || (cur == nil && d.Mode == "size") {
 					o = obsDesc{Res: "broken", Msg: "no writer or no remembered id"}
 					return
 				}
@@ -427,6 +427,13 @@ func runScript(out *hx.Out, sc script, origin string) {
 					return
 				}
 				cur = w
+				o = obsDesc{Res: "ok"}
+			case "forget":
+				// the registries lose everything: the whole stack is rebuilt around new
+				// empty ocimem registries (behind the same URLs); the ids the script
+				// remembers stay well formed but name uploads no registry has seen
+				reg, mems, fault = buildX(sc.Stack)
+				cur = nil
 				o = obsDesc{Res: "ok"}
 			case "fault":
 				if fault != nil {
@@ -731,7 +738,7 @@ func chunkFor(stack string, hint int) int {
 		hint = 65536
 	}
 	min := 8192
-	switch stack {
+	switch stack = strings.TrimSuffix(stack, "-rot"); stack {
 	case "mem", "unify-mem":
 		return 8192
 	case "hop2":
@@ -1079,9 +1086,11 @@ func main() {
 	genCodec(out, rnd, cfg.Thorough())
 	if cfg.Thorough() {
 		enumerate(out, 5, []int{0, 1}, stacks)
+		enumerate(out, 4, []int{0, 1}, rotStacks)
 	} else {
 		enumerate(out, 4, []int{0}, stacks)
 		enumerate(out, 3, []int{1}, []string{"hop1", "hop2"})
+		enumerate(out, 3, []int{0}, rotStacks)
 	}
 	// The random scripts are generated in a fixed order but run (and so written to the
 	// evaluation shards) in a striped order: the scripts with long contents - which cost the
@@ -1115,6 +1124,34 @@ func main() {
 	nFault, nRe := 120, 160
 	if cfg.Thorough() {
 		nFault, nRe = 2500, 3000
+	}
+	// the same shapes over registries whose upload ids / locations rotate (rot.go)
+	nRot, nUnseen := 120, 80
+	if cfg.Thorough() {
+		nRot, nUnseen = 3000, 1500
+	}
+	for i := 0; i < nRot; i++ {
+		st := rotStacks[i%len(rotStacks)]
+		var sc script
+		switch i % 10 {
+		case 0, 1, 2, 3:
+			sc = randomPlan(rnd, st, i%4 == 0)
+		case 4, 5, 6:
+			sc = withEpisode(rnd, st)
+		case 7, 8:
+			sc = copyLoop(rnd, st)
+		default:
+			if st == "unify-hop1-rot" {
+				sc = randomPlan(rnd, st, true)
+			} else {
+				sc = withFault(rnd, st)
+			}
+		}
+		sc.Shape += "-rot"
+		pend = append(pend, sc)
+	}
+	for i := 0; i < nUnseen; i++ {
+		pend = append(pend, unseen(rnd, stacks[i%len(stacks)]))
 	}
 	for i := 0; i < nFault; i++ {
 		pend = append(pend, withFault(rnd, []string{"hop1", "hop1", "hop1", "hop2"}[i%4]))
